@@ -712,6 +712,32 @@ def r2_overrides(k: Kit) -> None:
     rep.floor('C08.R2', '_accept_data overrides', n, 1)
 
 
+def readuntil_gives_up_when_paused(k: Kit, rule: str) -> None:
+    rep = k.rep
+    rep.rule(rule, 'SSHStreamSession.readuntil awaits more data '
+             '(_block_read) only on the not-paused edge of a test of '
+             '_read_paused: while the stream is paused no WINDOW_ADJUST goes '
+             'out, so a reader that blocks then can only be woken by data '
+             'that cannot arrive; it gives up (and re-runs the resume test) '
+             'instead')
+    _fi = k.func('stream.SSHStreamSession.readuntil')
+    _g = k.cfg(_fi)
+    _sites = [n for n, c in k.calls_named(_fi, '_block_read', 'self')]
+    rep.floor(rule, 'blocking points in readuntil', len(_sites), 1)
+    for _n in _sites:
+        _w = _g.guarded_by(_n.id, lambda x: False if x.kind == 'atom' and
+                           dotted(x.ast) == 'self._read_paused' else None)
+        rep.check(_w is None, rule,
+                  key(_fi, 'no blocking while the stream is paused'),
+                  'every path to _block_read takes the not-paused edge',
+                  'readuntil() / readline() can wait for data while the '
+                  'stream is paused: after a partial line was returned '
+                  'because an exception was queued behind it (which leaves '
+                  'the stream paused), the next readline() blocks for good '
+                  'and the window is never re-opened', k.loc(_fi, _n),
+                  _g.describe_path(_w) if _w else None)
+
+
 def run(idx, rep, tier):
     k = Kit(idx, rep)
     rep.assumptions += NOT_DECIDED
@@ -750,25 +776,4 @@ def run(idx, rep, tier):
              'pause_writing / resume_writing always reach the peer, whatever '
              'the EOF state of this side')
     backpressure_table(k, 'C08.R10')
-    rep.rule('C08.R11', 'SSHStreamSession.readuntil awaits more data '
-             '(_block_read) only on the not-paused edge of a test of '
-             '_read_paused: while the stream is paused no WINDOW_ADJUST goes '
-             'out, so a reader that blocks then can only be woken by data '
-             'that cannot arrive; it gives up (and re-runs the resume test) '
-             'instead')
-    _fi = k.func('stream.SSHStreamSession.readuntil')
-    _g = k.cfg(_fi)
-    _sites = [n for n, c in k.calls_named(_fi, '_block_read', 'self')]
-    rep.floor('C08.R11', 'blocking points in readuntil', len(_sites), 1)
-    for _n in _sites:
-        _w = _g.guarded_by(_n.id, lambda x: False if x.kind == 'atom' and
-                           dotted(x.ast) == 'self._read_paused' else None)
-        rep.check(_w is None, 'C08.R11',
-                  key(_fi, 'no blocking while the stream is paused'),
-                  'every path to _block_read takes the not-paused edge',
-                  'readuntil() / readline() can wait for data while the '
-                  'stream is paused: after a partial line was returned '
-                  'because an exception was queued behind it (which leaves '
-                  'the stream paused), the next readline() blocks for good '
-                  'and the window is never re-opened', k.loc(_fi, _n),
-                  _g.describe_path(_w) if _w else None)
+    readuntil_gives_up_when_paused(k, 'C08.R11')
